@@ -683,6 +683,9 @@ class Interp:
             return self.isinstance_(pos[0], pos[1], node)
         if name == "bool":
             return self.truth(pos[0], node)
+        if name in ("all", "any") and len(pos) == 1 and not kw:
+            vals = [self.truth(x, node) for x in self.iterate(pos[0], node)]
+            return all(vals) if name == "all" else any(vals)
         raise AnalysisError(f"builtin {name} not interpretable in this domain")
 
     def sort(self, items: list[Any], node: ast.AST) -> list[Any]:
